@@ -231,6 +231,7 @@ func (fx *FnExec) freshResult(rt types.Type, name string, nilable bool) Val {
 // havocCall: unknown callee — arguments escape, the whole heap is havoc'd,
 // results are unconstrained (and possibly nil).
 func (fx *FnExec) havocCall(fr *frame, st *State, key string, args []Val, rt types.Type, why string) Val {
+	fx.frameWrite(fr, st, nil, token.NoPos, "call "+key+" (no contract, may modify anything)")
 	if why != "" {
 		fx.note(fmt.Sprintf("call to %s (%s): assumed to terminate without panicking; heap havoc'd, results unconstrained", key, why))
 	}
@@ -495,6 +496,7 @@ func (fx *FnExec) copyBuiltin(fr *frame, st *State, cc *ssa.CallCommon, args []V
 		fx.oos("copy from %T", args[1])
 	}
 	n := c.Ite(c.BVCmp("bvslt", slen, dst.Len), slen, dst.Len)
+	fx.frameWrite(fr, st, dst.Ref, cc.Pos(), "copy into memory that existed before the call")
 	if es := singleSort(et); es == nil || isObjT(et) {
 		// composite elements: destination contents unconstrained
 		fx.drop("copy of slices with composite elements (destination contents unconstrained)")
@@ -563,6 +565,11 @@ func (fx *FnExec) appendBuiltin(fr *frame, st *State, cc *ssa.CallCommon, args [
 	}
 	newLen := c.BVBin("bvadd", s.Len, tlen)
 	inplace := c.BVCmp("bvsle", newLen, s.Cap)
+	if fx.pureMode && !fx.isFreshRef(s.Ref) {
+		s2 := st.clone()
+		s2.pc = c.And(st.pc, inplace, c.BVCmp("bvslt", fx.bv64(0), tlen))
+		fx.frameWrite(fr, s2, s.Ref, cc.Pos(), "append in place into memory that existed before the call")
+	}
 	nr := fx.newRef("append")
 	ncap := c.Fresh("append.cap", BV(64))
 	fx.assumeGlobal(c.And(c.BVCmp("bvsle", newLen, ncap), c.BVCmp("bvsle", ncap, c.BVConst(mask(maxLenBits), 64))))
@@ -620,6 +627,7 @@ func (fx *FnExec) syncCall(fr *frame, st *State, callee *ssa.Function, args []Va
 		}
 		switch n {
 		case "Lock", "RLock":
+			fx.frameWrite(fr, st, nil, pos, "acquire a lock")
 			fx.note("sync.Mutex: acquiring a lock havocs the shared heap (other goroutines may have run); critical sections are reasoned about sequentially")
 			fx.havocAll(st)
 			st.held[key] = fx.c.True()
